@@ -331,12 +331,22 @@ impl TypeChecker {
 
     /// Ensure imported items are public in the dependency module.
     fn validate_import_visibility(&mut self, import: &ImportDecl, span: Span) {
-        let ImportKind::From { module, items } = &import.kind else {
-            return;
+        // `from m import a, b` names items of `m`; so does `import m::a` (its last segment is the item).
+        let (module_segments, module_display, item_names): (Vec<String>, String, Vec<String>) = match &import.kind {
+            ImportKind::From { module, items } => (
+                module.segments.clone(),
+                module.to_rust_path(),
+                items.iter().map(|item| item.name.clone()).collect(),
+            ),
+            ImportKind::Module(path) if path.segments.len() > 1 => {
+                let (item, module) = path.segments.split_last().expect("INVARIANT: len > 1");
+                (module.to_vec(), module.join("::"), vec![item.clone()])
+            }
+            _ => return,
         };
 
         // Only check modules that were pre-imported; skip std and unresolved ones.
-        let module_name = module.segments.join("_");
+        let module_name = module_segments.join("_");
         let Some(exports) = self.dependency_exports.get(&module_name) else {
             return;
         };
@@ -356,16 +366,15 @@ impl TypeChecker {
             }
         }
 
-        for item in items {
-            if !exported_names.contains(&item.name) {
+        for item_name in &item_names {
+            if !exported_names.contains(item_name) {
                 let message = format!(
                     "Cannot import `{}` from `{}`: it is private or not exported. Mark it `pub` in that module.",
-                    item.name,
-                    module.to_rust_path()
+                    item_name, module_display
                 );
                 let hint = format!(
                     "Public exports from `{}`: {}",
-                    module.to_rust_path(),
+                    module_display,
                     if exported_names.is_empty() {
                         "<none>".to_string()
                     } else {
